@@ -40,7 +40,7 @@ def init_worker(ctx):
 
 @st.composite
 def model(draw, used, words=None):
-    W = st.sampled_from(["Foo", "Bar", "Config", "Item", "Node", "User", "Log"])
+    W = st.sampled_from(["Foo", "Bar", "Config", "Item", "Node", "User", "Log", "T", "Q", "Ab"])  # incl. one- and two-letter names
     words = words or draw(st.one_of(st.lists(W, min_size=1, max_size=1), st.lists(W, min_size=1, max_size=1), st.lists(W, min_size=2, max_size=2)))
     cls = "".join(words)
     while cls in used:
